@@ -60,6 +60,12 @@ def junction_spec(rng):
 
 def gen(rng, n):
     cases = []
+    # corpus: the witness of fix e34a2b9 (line limits of ~1e-8 from an almost idle load flow: presolve declared the always-feasible
+    # reactive problem infeasible and the run ended in a TypeError) runs first
+    import json as _json, os as _os
+    _wp = _os.path.join(_os.path.dirname(__file__), "corpus", "lp_presolve_witness.json")
+    if _os.path.exists(_wp):
+        cases.append(_json.load(open(_wp)))
     for j in range(n):
         targeted = j % 5 == 2
         spec = junction_spec(rng) if targeted else gen_spec(rng, small=True if j % 5 == 4 else None, binding=(j % 5 == 1))   # every fifth: small costs / small load points
@@ -210,8 +216,12 @@ def run_and_capture(case, observe=None):
 
     def lin(c, A_eq=None, b_eq=None, bounds=None, **kw):
         res = orig_lin(c, A_eq=A_eq, b_eq=b_eq, bounds=bounds, **kw)
-        if not kw:      # the diagnostic re-solve with options={"disp": True} is not recorded
+        if not kw:
             cur["calls"].append({"c": list(c), "A": np.array(A_eq), "b": list(b_eq), "bounds": list(bounds), "res": res})
+        elif cur.get("calls") and not cur["calls"][-1]["res"].success:
+            # the re-solve after a failed solve (same instance, solver output on, no presolve): its result is the one the code uses
+            cur["calls"][-1]["res"] = res
+            cur["calls"][-1]["retried"] = True
         return res
 
     def shed_energy(power_system, dt, **kw):
